@@ -156,7 +156,7 @@ def explore_scenario(spec, classify=None, max_viol=3):
     t0 = time.time()
     summ = dict(id=spec['id'], family=spec['family'], executions=0, points=0, transitions=0, levels=[], capped=False,
                 completed_level=-1, violations=[], n_violations=0, traces=set(), triggered=0, verdicts={},
-                collapsed=0, sample=None, errors=[], known={})
+                collapsed=0, sample=None, errors=[], known={}, clauses={})
     level = [((), None)]
     L = 0
     n_exec = 0
@@ -214,6 +214,8 @@ def explore_scenario(spec, classify=None, max_viol=3):
                             k[1] = dict(scenario=spec['id'], clause=x['clause'], tags=x.get('tags', {}), choices=list(taken))
                 if uncovered:
                     summ['n_violations'] += 1
+                    for y in uncovered:
+                        summ['clauses'][y['clause']] = summ['clauses'].get(y['clause'], 0) + 1
                     x = uncovered[0]
                     kept = [y for y in summ['violations'] if y['clause'] == x['clause']]
                     if len(summ['violations']) < max_viol * 4 and len(kept) < max_viol:
